@@ -60,7 +60,9 @@ static Value runOne(const Value& rec, const std::string& tmp)
   }
   ASerializable::unsetContainerName();
   ASerializable::unsetPrefixName();
-  defineDefaultSpace(ESpaceType::RN, 2);
+  // the session has the default space of the valid file from which the faulty one derives
+  int ndim0 = rec.geti("ndim", 2);
+  defineDefaultSpace(ESpaceType::RN, ndim0);
   bool other = nf::registry().count(cls) == 0;
   nf::Handler* h = other ? nullptr : &nf::registry()[cls];
   nf::Handler* hd = other ? nullptr : h;
@@ -94,7 +96,7 @@ static Value runOne(const Value& rec, const std::string& tmp)
     if (okd && !text.empty())
     {
       setStage(4, rec.at("id"));
-      defineDefaultSpace(ESpaceType::RN, 2);
+      defineDefaultSpace(ESpaceType::RN, ndim0);
       void* re = hd->load(path2);
       out["reload"] = Value(re != nullptr);
       if (re)
